@@ -25,7 +25,7 @@ Definition dop_ok (now : Z) (o : op) : Prop :=
   match o with
   | OAdd _ ttl l | OSet _ ttl l => ttl_okP ttl /\ (ttl <= 0 \/ NoDup (clean_addrs l))
   | OUpdate _ _ new => ttl_okP new
-  | OConsume _ seq _ ttl bad l => bad = true \/ (0 <= seq /\ ttl_okP ttl /\ NoDup (clean_addrs l))
+  | OConsume _ seq _ ttl bad l => bad = true \/ (0 <= seq /\ ttl_okP ttl /\ (ttl <= 0 \/ NoDup (clean_addrs l)))
   | OAdvance d => 0 <= d /\ whole d /\ now + d + SEC <= ConnectedAddrTTL
   | _ => True
   end.
